@@ -23,6 +23,36 @@ Theorem wrap_iff : forall e p t,
 Proof. reflexivity. Qed.
 Print Assumptions wrap_iff.
 
+(* an operand pasted next to an operator in a suggestion (stringify_operand) is the expression's own text,
+   parenthesised exactly when it binds less tightly than the place it is pasted into; the object of a method
+   call is an atom or parenthesised; a conditional, lambda or walrus is parenthesised next to every operator *)
+Theorem pasted_operand_wraps : forall (e : expr) (operator s : string),
+  stringify_ (S (expr_depth e)) e = Some s ->
+  stringify e = s /\
+  stringify_operand e operator = (if Nat.ltb (precedence e) (operand_precedence operator) then "(" ++ s ++ ")" else s)%string.
+Proof. exact stringify_operand_wraps. Qed.
+Print Assumptions pasted_operand_wraps.
+
+Theorem pasted_object_of_method_call : forall (e : expr) (s : string),
+  stringify_ (S (expr_depth e)) e = Some s -> (precedence e < atom_precedence)%nat ->
+  stringify_operand e "." = ("(" ++ s ++ ")")%string.
+Proof. exact operand_of_dot_is_atom_or_wrapped. Qed.
+Print Assumptions pasted_object_of_method_call.
+
+Theorem pasted_loose_operand : forall (e : expr) (operator s : string),
+  stringify_ (S (expr_depth e)) e = Some s -> (precedence e <= 2)%nat -> operator <> "{}"%string ->
+  stringify_operand e operator = ("(" ++ s ++ ")")%string.
+Proof. exact loose_operand_always_wrapped. Qed.
+Print Assumptions pasted_loose_operand.
+
+Example pasted_examples :
+  stringify_operand (ECond (EName "c" "c") (EName "a" "a") (EName "b" "b")) "or" = "(a if c else b)"%string
+  /\ stringify_operand (EOp "+" (EName "s" "s") (EName "t" "t")) "." = "(s + t)"%string
+  /\ stringify_operand (EOp "+" (EName "s" "s") (EName "t" "t")) "==" = "s + t"%string
+  /\ stringify_operand (EWalrus (EName "w" "w") (EName "n" "n")) "{}" = "(w := n)"%string.
+Proof. repeat split; reflexivity. Qed.
+Print Assumptions pasted_examples.
+
 (* the shapes that were quoted wrongly before the repair, on the model *)
 Definition nm (s : string) := EName s s.
 Example witnesses_fixed :
